@@ -407,4 +407,124 @@ Section COMPOSE.
         cbn [apply_pupdate]. rewrite reset_as_delta. exact Post.
     Qed.
   End SUBSTATE.
+  (* ============================ the three tiers ============================ *)
+  Section DB.
+    Variables US UP UE : list N -> Prop.
+    Hypothesis PFS : pfree US. Hypothesis US0 : ~ US [].
+    Hypothesis PFP : pfree UP. Hypothesis UP0 : ~ UP [].
+    Hypothesis PFE : pfree UE. Hypothesis UE0 : ~ UE [].
+
+    (* partition tier over substate tiers *)
+    Definition hash_p (t : pnodeT) : list N := node_hash H snodeT (lh_root H) t.
+    Definition rel_p : pnodeT -> emap -> Prop := rel_up snodeT _ (rel_s US) hash_s UP.
+    Definition ok_eupd (pus : list (list N * pupdate)) : Prop := xs_ok _ (ok_pupd US) UP pus.
+
+    Lemma partition_put_is_upper : forall ekey root ver pus,
+      partition_tier_put H fuel ekey root ver pus =
+      upper_put snodeT pupdate
+        (fun ver key sroot u => substate_tier_put H fuel ((ekey ++ TIER_SEP) ++ key ++ TIER_SEP) sroot ver u)
+        ver (ekey ++ TIER_SEP) root pus.
+    Proof. reflexivity. Qed.
+    Lemma apply_eupdate_is_upper : forall e pus, apply_eupdate e pus = apply_upper _ _ apply_pupdate e pus.
+    Proof. reflexivity. Qed.
+
+    Theorem partition_ok : forall ver ekey proot e pus,
+      ok_eupd pus -> lower_rel pnodeT _ rel_p proot e ->
+      exists h r ops, partition_tier_put H fuel ekey proot ver pus = Ok (h, r, ops) /\
+        step_post rel_p hash_p (apply_eupdate e pus) h r.
+    Proof.
+      intros ver ekey proot e pus OKp LR. rewrite partition_put_is_upper, apply_eupdate_is_upper.
+      destruct (upper_ok snodeT _ pupdate (rel_s US) hash_s apply_pupdate (ok_pupd US) UP PFP UP0
+                  (fun ver key sroot u => substate_tier_put H fuel ((ekey ++ TIER_SEP) ++ key ++ TIER_SEP) sroot ver u)
+                  (fun ver key sroot b x Ox LRx => substate_ok US PFS US0 ver _ sroot b x Ox LRx)
+                  ver (ekey ++ TIER_SEP) proot e pus) as (h & r & ops & E & _ & Post).
+      - unfold state_rel. unfold lower_rel in LR. destruct proot as [[v t]|]; exact LR.
+      - exact OKp.
+      - exists h, r, ops. split; [exact E|exact Post].
+    Qed.
+
+    Lemma rel_p_root : forall t e, rel_p t e -> hash_p t = entity_root H fuel e.
+    Proof.
+      intros t e Rp. unfold hash_p. rewrite (rel_up_root snodeT _ (rel_s US) hash_s (partition_root H fuel) (rel_s_root US) UP t e Rp).
+      reflexivity.
+    Qed.
+
+    (* entity tier over partition tiers *)
+    Definition hash_e (t : enodeT) : list N := node_hash H pnodeT (lh_root H) t.
+    Definition rel_e : enodeT -> dbmap -> Prop := rel_up pnodeT _ rel_p hash_p UE.
+    Definition ok_commit (u : db_updates) : Prop := xs_ok _ ok_eupd UE u.
+
+    Lemma entity_put_is_upper : forall root ver eus,
+      entity_tier_put H fuel root ver eus =
+      upper_put pnodeT (list (list N * pupdate))
+        (fun ver key proot pus => partition_tier_put H fuel key proot ver pus) ver [] root eus.
+    Proof. reflexivity. Qed.
+    Lemma apply_commit_is_upper : forall d u, apply_commit d u = apply_upper _ _ apply_eupdate d u.
+    Proof. reflexivity. Qed.
+
+    Lemma rel_e_root : forall t d, rel_e t d -> hash_e t = db_root H fuel d.
+    Proof.
+      intros t d Re. unfold hash_e. rewrite (rel_up_root pnodeT _ rel_p hash_p (entity_root H fuel) rel_p_root UE t d Re).
+      reflexivity.
+    Qed.
+
+    Definition db_rel (st : tree_state) (d : dbmap) : Prop :=
+      match st with None => d = [] | Some (_, t) => rel_e t d end.
+
+    Lemma db_root_nil : db_root H fuel [] = ZERO_HASH.
+    Proof. unfold db_root, smt_root. cbn [map]. apply smt_nil. Qed.
+
+    (* one commit of the whole database *)
+    Theorem commit_ok : forall st d u,
+      db_rel st d -> ok_commit u ->
+      exists st' ops, put_at_next_version H fuel st u = Ok (db_root H fuel (apply_commit d u), st', ops) /\
+        db_rel st' (apply_commit d u).
+    Proof.
+      intros st d u DR OKu. unfold put_at_next_version. rewrite entity_put_is_upper, apply_commit_is_upper.
+      set (ver := match st with Some (v, _) => v + 1 | None => 1 end).
+      destruct (upper_ok pnodeT _ (list (list N * pupdate)) rel_p hash_p apply_eupdate ok_eupd UE PFE UE0
+                  (fun ver key proot pus => partition_tier_put H fuel key proot ver pus)
+                  (fun ver key proot e pus Ox LRx => partition_ok ver key proot e pus Ox LRx)
+                  ver [] st d u) as (h & r & ops & E & Rel & Post).
+      - unfold state_rel. unfold db_rel in DR. destruct st as [[v t]|]; exact DR.
+      - exact OKu.
+      - rewrite E. exists (Some (ver, r)), ops. split; [|exact Rel].
+        destruct Post as [[Ed Eh]|(Nd & Rd & Eh)]; subst h.
+        + assert (Z : forall l : dbmap, l = [] -> db_root H fuel l = ZERO_HASH) by (intros l El; subst l; apply db_root_nil).
+          rewrite (Z _ Ed). reflexivity.
+        + fold (hash_e r). rewrite (rel_e_root r _ Rd). reflexivity.
+    Qed.
+
+    (* every history: the roots returned are the commitments of the successive databases *)
+    Fixpoint run_db (st : tree_state) (us : list db_updates) : res (list (list N) * tree_state) :=
+      match us with
+      | [] => Ok ([], st)
+      | u :: r =>
+        match put_at_next_version H fuel st u with
+        | Ok (h, st', _) =>
+          match run_db st' r with
+          | Ok (hs, stf) => Ok (h :: hs, stf)
+          | Panic => Panic | OutOfFuel => OutOfFuel
+          end
+        | Panic => Panic | OutOfFuel => OutOfFuel
+        end
+      end.
+    Fixpoint spec_roots (d : dbmap) (us : list db_updates) : list (list N) :=
+      match us with
+      | [] => []
+      | u :: r => db_root H fuel (apply_commit d u) :: spec_roots (apply_commit d u) r
+      end.
+
+    Theorem history_ok : forall us st d,
+      db_rel st d -> Forall ok_commit us ->
+      exists stf, run_db st us = Ok (spec_roots d us, stf) /\ db_rel stf (apply_commits d us).
+    Proof.
+      induction us as [|u r IH]; intros st d DR OK.
+      - exists st. split; [reflexivity|exact DR].
+      - inversion OK as [|? ? OKu OKr]; subst.
+        destruct (commit_ok st d u DR OKu) as (st' & ops & E & DR').
+        destruct (IH st' (apply_commit d u) DR' OKr) as (stf & E' & DRf).
+        exists stf. cbn [run_db spec_roots apply_commits fold_left]. rewrite E, E'. split; [reflexivity|exact DRf].
+    Qed.
+  End DB.
 End COMPOSE.
